@@ -5,6 +5,7 @@ import (
 	"fmt"
 	"github.com/ipld/go-ipld-prime/node/bindnode"
 	ipldschema "github.com/ipld/go-ipld-prime/schema"
+	"github.com/storacha/go-ucanto/core/delegation"
 	"github.com/storacha/go-ucanto/core/invocation/ran"
 	"github.com/storacha/go-ucanto/core/message"
 	"github.com/storacha/go-ucanto/core/result/failure"
@@ -42,6 +43,7 @@ func init() {
 	gens["C08"] = genC08
 	execs["serve"] = execServe
 	execs["servepanic"] = execServePanic
+	execs["srvrun"] = guard(execSrvRun)
 	isolatedOps["servepanic"] = true
 	freshOps["servepanic"] = true
 	crashOKOps["servepanic"] = true
@@ -71,6 +73,12 @@ func genC08(cfg Config, emit Emit) error {
 	// the handler is handed the caveats as the capability's reader (here a union of readers) reads them
 	emit("reqcraft", []string{"or", "-", "-"}, "crafted/or", true)
 	genRdTree(cfg, emit, 150, 3000)
+	// the library's Run entry point called directly (not through a request): same rule
+	for _, k := range []string{"onecap", "twocap", "twocap-same", "zerocap", "unknown"} {
+		for _, via := range []string{"func", "method"} {
+			emit("srvrun", []string{k, via}, "server.Run/"+k, true)
+		}
+	}
 	genWorlds(cfg, n, o, func(w *AWorld, class string) {
 		r := cfg.Rng
 		res := []string{"ok", "okfx", "err", "okjoin"}
@@ -565,4 +573,49 @@ func execServePanic(args []string) (res Result) {
 	// the process lived: then the checker was never shown a revoked authorization, and the outcome is the
 	// stateless model's (an authorization through delegations none of which is revoked, or a refusal)
 	return Result{Args: []string{args[0], mustJSON(&w)}, Impl: serveCanon(&w, statuses, calls)}
+}
+
+// execSrvRun: server.Run / ServerView.Run called directly with an invocation of one, two or no capabilities.
+// args = [kind, via]. Impl = "<receipt status>|calls=<n>"
+func execSrvRun(a []string) Result {
+	pools()
+	svc, alice := edPool[0], edPool[1]
+	calls := 0
+	var mu sync.Mutex
+	capb := validator.NewCapability[NbMap]("test/run", schema.DIDString(), nbReader{}, nil)
+	srv, err := server.NewServer(svc, server.WithErrorHandler(func(server.HandlerExecutionError[any]) {}),
+		server.WithServiceMethod("test/run", server.Provide(capb, func(cap ucan.Capability[NbMap], inv invocation.Invocation, ctx server.InvocationContext) (okOut, fx.Effects, error) {
+			mu.Lock()
+			calls++
+			mu.Unlock()
+			return okOut{1}, nil, nil
+		})))
+	if err != nil {
+		return Result{Impl: "server-error"}
+	}
+	self := alice.DID().String()
+	caps := map[string][]ucan.Capability[NbMap]{
+		"onecap":      {ucan.NewCapability("test/run", self, NbMap{F: map[string]any{}})},
+		"twocap":      {ucan.NewCapability("test/run", self, NbMap{F: map[string]any{}}), ucan.NewCapability("test/run", self, NbMap{F: map[string]any{"f1": int64(1)}})},
+		"twocap-same": {ucan.NewCapability("test/run", self, NbMap{F: map[string]any{}}), ucan.NewCapability("test/run", self, NbMap{F: map[string]any{}})},
+		"zerocap":     {},
+		"unknown":     {ucan.NewCapability("test/none", self, NbMap{F: map[string]any{}})},
+	}[a[0]]
+	inv, err := delegation.Delegate(alice, svc, caps, delegation.WithNoExpiration(), delegation.WithNonce("run-"+a[0]))
+	if err != nil {
+		return Result{Impl: "skip:" + err.Error()}
+	}
+	var rc receipt.AnyReceipt
+	if a[1] == "method" {
+		rc, err = srv.Run(inv)
+	} else {
+		rc, err = server.Run(srv, inv)
+	}
+	if err != nil {
+		return Result{Impl: "error"}
+	}
+	st := result.MatchResultR1(rc.Out(), func(o ipld.Node) string { return "ok" }, func(x ipld.Node) string { return failureName(x) })
+	mu.Lock()
+	defer mu.Unlock()
+	return Result{Impl: fmt.Sprintf("%s|calls=%d", st, calls)}
 }
